@@ -3,18 +3,23 @@
 package c17
 
 import (
+	"context"
 	"fmt"
 	"io/fs"
+	"reflect"
 	"strings"
 	"testing"
 
 	"github.com/cockroachdb/errors"
+	"github.com/cockroachdb/errors/errbase"
 	"github.com/cockroachdb/errors/errorspb"
+	"github.com/gogo/protobuf/proto"
 	"pgregory.net/rapid"
 
 	"verif/gen"
 	"verif/obs"
 	"verif/pbt"
+	oddpkg "verif/props/c17/odd.v2"
 	"verif/wire"
 )
 
@@ -109,3 +114,72 @@ var builtinProp = &pbt.Prop{ID: "C17", Part: "builtin-rename", Draw: drawBuiltin
 	Valid: func(c *pbt.Case) bool { return gen.SpecRegular(c.Spec) && c.Spec.Has("ospath") }}
 
 func TestBuiltinRename(t *testing.T) { pbt.Run(t, builtinProp) }
+
+// movedErr: a type that kept its name while its package moved (only
+// the import path in the migration declaration differs).
+type movedErr struct{ msg string }
+
+func (e *movedErr) Error() string { return e.msg }
+
+// TestKeysAndMoves: (a) the natural key of a type - the name old code
+// sends and the form RegisterTypeMigration asks the previous name in -
+// is "<import path>/<Go type string>", also when the package name is
+// not the last element of the import path; (b) a pure package move
+// (same type name, other import path) is a rename like any other.
+func TestKeysAndMoves(t *testing.T) {
+	st := pbt.NewStats("keys-and-moves")
+	defer st.Write()
+	p := &pbt.Prop{ID: "C17", Part: "keys-and-moves"}
+	fail := func(n int, sig, msg string) {
+		c := &pbt.Case{}
+		c.SetInt("step", n)
+		pbt.Fail(t, p, st, c, &pbt.Failure{Sig: sig, Msg: msg})
+	}
+	// (a)
+	st.Eval()
+	st.NT(1, func() interface{} { return "natural key of a type in a package whose name differs from its directory" })
+	odd := &oddpkg.Err{Msg: "x"}
+	wantKey := reflect.TypeOf(odd).Elem().PkgPath() + "/" + reflect.TypeOf(odd).String()
+	if got := string(errbase.GetTypeKey(odd)); got != wantKey {
+		fail(1, "the natural key of a type is not <import path>/<Go type string>", fmt.Sprintf("got %q want %q", got, wantKey))
+	}
+	enc := wire.Unmarshal(wire.Encode(odd))
+	if l := enc.GetLeaf(); l == nil || l.Details.ErrorTypeMark.FamilyName != wantKey || l.Details.OriginalTypeName != wantKey {
+		fail(1, "the natural key of a type is not <import path>/<Go type string>", fmt.Sprintf("on the wire: %v want %q", enc, wantKey))
+	}
+	// (b) in a registry image of its own.
+	st.Eval()
+	st.NT(2, func() interface{} { return "a type whose package moved: same type name, other import path" })
+	baseReg := errbase.VerifSnapshotRegistry()
+	defer errbase.VerifInstallRegistry(baseReg)
+	const oldPath = "example.com/old/place/c17"
+	typeString := reflect.TypeOf(&movedErr{}).String() // "*c17.movedErr"
+	errbase.RegisterTypeMigration(oldPath, typeString, &movedErr{})
+	key := errbase.GetTypeKey(&movedErr{})
+	errbase.RegisterLeafDecoder(key, func(_ context.Context, msg string, _ []string, _ proto.Message) error { return &movedErr{msg} })
+	oldKey := oldPath + "/" + typeString
+	if string(key) != oldKey {
+		fail(2, "a renamed type is not encoded under its original name: package move", fmt.Sprintf("key %q want %q", key, oldKey))
+	}
+	encM := wire.Unmarshal(wire.Encode(&movedErr{"m"}))
+	if l := encM.GetLeaf(); l == nil || l.Details.ErrorTypeMark.FamilyName != oldKey {
+		fail(2, "a renamed type is not encoded under its original name: package move", fmt.Sprintf("family on the wire: %v want %q", encM, oldKey))
+	}
+	// what the old code sends: old name throughout
+	if l := encM.GetLeaf(); l != nil {
+		l.Details.OriginalTypeName = oldKey
+		l.Details.ErrorTypeMark.FamilyName = oldKey
+	}
+	got := errors.DecodeError(wire.Ctx, encM)
+	if _, ok := got.(*movedErr); !ok {
+		fail(2, "an error arriving under the original name is not decoded to the receiver's type: package move", fmt.Sprintf("%T", got))
+	}
+	if !errors.Is(got, &movedErr{"m"}) || !errors.Is(&movedErr{"m"}, got) {
+		fail(2, "Is does not recognize a moved type across the old and the new path", "")
+	}
+	dup := obs.Try(func() { errbase.RegisterTypeMigration("example.com/another/place/c17", typeString, &movedErr{}) })
+	if dup == "" {
+		fail(2, "registering a second migration for the same target is not rejected: package move", "")
+	}
+	st.Exhaustive = true
+}
